@@ -39,6 +39,16 @@ def __pcnpc(i_xxx):
     return pcnpc
 
 
+def _pair(ins, x):
+    # x is register number ins.rd of the integer, floating-point or coprocessor
+    # bank: returns the odd register of the doubleword pair it belongs to
+    # (None if x is not in these banks, e.g. the fq/cq queues).
+    for bank in (r, f, c):
+        if bank[ins.rd].ref == x.ref:
+            return bank[ins.rd | 1]
+    return None
+
+
 def trap(ins, fmap, trapname):
     # the trap handler (tbr) is not modelled: the next location is unknown
     logger.verbose("%s: %s trap" % (ins.mnemonic, trapname))
@@ -91,7 +101,7 @@ def i_ldd(ins, fmap):
     v = fmap(__mem(src, 64))
     if dst is not g0:
         fmap[dst] = v[32:64]
-    fmap[r[ins.rd | 1]] = v[0:32]
+    fmap[_pair(ins, dst)] = v[0:32]
 
 
 def i_ldsba(ins, fmap):
@@ -156,11 +166,14 @@ def i_st(ins, fmap):
 @__pcnpc
 def i_std(ins, fmap):
     src, dst = ins.operands
-    rr = comp(64)
-    rr[32:64] = src
-    rr[0:32] = r[ins.rd | 1]
+    src2 = _pair(ins, src)
+    if src2 is None:
+        # std %fq / std %cq: the queue entry is not modelled
+        val = top(64)
+    else:
+        val = composer([fmap(src2), fmap(src)])
     if dst.base is not g0:
-        fmap[__mem(dst, 64)] = fmap(rr)
+        fmap[__mem(dst, 64)] = val
 
 
 def i_stba(ins, fmap):
